@@ -550,6 +550,13 @@ def extra_isar():
         ('isar shiftLeft nested', '<xml><constant name="K" value="shiftLeft(shiftLeft(1, 2), bitMaskOr(1, 2))"/></xml>'),
         ('isar duplicate typedef cycle', '<xml><typedef name="A" type="B"/><typedef name="B" primitiveType="8 bit integer unsigned"/>'
                                          '<typedef name="B" type="A"/><struct name="S"><member name="m" type="A"/></struct></xml>'),
+        ('isar duplicate typedef cycle in a union arm', '<xml><typedef name="B" primitiveType="8 bit integer unsigned"/>'
+                                                        '<typedef name="A" type="B"/><typedef name="B" type="A"/><union name="U">'
+                                                        '<member name="m" type="A" discriminatorValue="1"/></union></xml>'),
+        ('isar duplicate typedef cycle as element type', '<xml><typedef name="B" primitiveType="8 bit integer unsigned"/>'
+                                                         '<typedef name="A" type="B"/><typedef name="B" type="A"/><struct name="S">'
+                                                         '<member name="m" type="A"><dimension size="2"/></member>'
+                                                         '<member name="o" type="B" optional="true"/></struct></xml>'),
         ('isar duplicate struct', '<xml><struct name="S"><member name="a" type="u8"/></struct>'
                                   '<struct name="S"><member name="b" type="u16"/></struct></xml>'),
         ('isar duplicate member', '<xml><struct name="S"><member name="a" type="u8"/><member name="a" type="u16"/></struct></xml>'),
